@@ -7,6 +7,25 @@ ENV = "GOFLAGS=-mod=mod GOPROXY=off GOSUMDB=off GOTOOLCHAIN=local GOWORK=off"
 
 # property -> (technique, level text, level note, design ref)
 CLAIMED = {
+    "C02": (
+        "index-space typing over go/ssa (IDX-1..5: positions vs vertex ids vs attribute positions, kinds from type-resolved sources), attribute-family completeness and lock-step control equivalence (FAM-1/2, WF-1) over packages modeling/**",
+        "Decides for every mesh operation in modeling/** and every path: attribute data and per-vertex tables are never subscripted with a position of the index array, "
+        "no bare position is written as a vertex id into an index array that keeps the input's attributes (SetIndices, Mesh literals, NewMesh arrays other than the identity fill), "
+        "the index array is never subscripted with a vertex id, a vertex id is only offset by a vertex count, and every function that rebuilds attribute arrays handles all four "
+        "attribute families in lock-step (none skipped on a path another is handled, so output lengths agree). Necessary conditions of 'every index refers to an existing vertex / "
+        "one common attribute length' that hold for every index pattern and attribute mix at once; generator index formulas, shift-table arithmetic and 'multiple of three' are not decided.",
+        "go/types + go/ssa of x/tools v0.29.0; kinds are assigned only from Mesh.Indices / FloatNAttribute / AttributeLength / PrimitiveCount / Tri.P1.. / Mesh field objects; untyped integers are never judged (no false alarm, possible miss).",
+        "DESIGN.md §3.2, §4 C02",
+    ),
+    "C03": (
+        "def-use shape analysis of the 23 element-wise operations (SHAPE-1..4), permutation check of the winding flip (PERM-1), attribute-name reachability (ATTR-1), index-space typing and family lock-step (IDX, FAM, WF) on go/ssa",
+        "Decides for each single-attribute transform (table of 23 functions resolved by name) that the result is the input mesh value with exactly the attribute that was read replaced, "
+        "by an array of the same length whose element j is computed from element j, unconditionally for all j, using every value parameter; for the layout operations that corner "
+        "gathers go through the vertex id, the flip permutes the three indices of one triangle (odd permutation, each once), all attribute families are carried in lock-step, and every "
+        "attribute-name parameter reaches a data access. Holds for every mesh and parameter at once; the numeric map itself (C17), weld cells, Laplacian weights and compositions are not decided.",
+        "go/types + go/ssa of x/tools v0.29.0; the table of element-wise operations is frozen in the checker (a renamed operation fails as unresolved anchor); backward slices stop at loop phis when matching element indices.",
+        "DESIGN.md §3.3, §4 C03",
+    ),
     "C16": (
         "SSA escape/taint analysis of per-loop variable addresses (ORD-2) over trees/, rendering/, math/geometry, modeling",
         "Decides, for every function of the spatial-index packages and on every path, that no query keeps the address of a per-loop "
